@@ -19,6 +19,7 @@ ILL = ['{{#each v}}x{{/each}}', '{{#each}}x{{/each}}', '{{#with}}x{{/with}}', '{
        '{{#with a as |x y|}}{{y}}{{/with}}', '{{(a)}}', '{{#> @partial-block}}x{{/@partial-block}}', '{{> @partial-block}}', '{{> (lookup a 0)}}', '{{> [a b]}}',
        '{{#each a}}{{> @partial-block}}{{/each}}', '{{[0]}}', '{{a.[-1]}}', '{{a.[1e3]}}', '{{a.18446744073709551616}}', '{{this.this}}', '{{@root}}', '{{@index}}',
        '{{#if a}}{{else if}}{{/if}}', '{{#each a}}{{else each}}{{/each}}', '{{lookup a "0"}}', '{{lookup a -1}}', '{{lookup a 1.5}}', '{{lookup o 0}}', '{{#unless}}{{/unless}}',
+       '{{gt 1 "NaN"}}', '{{lte v "nan"}}', '{{#if (lt "-NaN" 2)}}y{{/if}}', '{{gte 1.5 "inf"}}', '{{lt 1 "+1"}}', '{{gt "1e999" 0}}', '{{gt v "NaN"}}{{lt "NaN" "NaN"}}',
        '{{if a}}', '{{each a}}', '{{with a}}', '{{raw}}', '{{{{raw}}}}{{{{/raw}}}}', '{{{{if a}}}}x{{{{/if}}}}', '{{{{each a}}}}x{{{{/each}}}}']
 
 def gen_cases(rng, tier, scale):
